@@ -276,6 +276,21 @@ static void build_ops(HX& hx, int nobj, const std::vector<int>& values)
                 catch (const pl::Injected&) { new (w.raw[i]) xtl::any; w.m[i] = MV(); }
                 w.ref_valid[i] = false;
                 return true; });
+            // a const rvalue any (std::move of a const object, a function returning const any) must select the COPY operations
+            hx.add_op("copy-construct(const&&)", "a" + I + ":=any(move(const a" + J + "))", [i, j](World& w, Errs& e) {
+                w.a(i).~any();
+                const xtl::any& src = w.a(j);
+                try { pl::Arm arm; new (w.raw[i]) xtl::any(std::move(src)); w.m[i] = w.m[j]; }
+                catch (const pl::Injected&) { new (w.raw[i]) xtl::any; w.m[i] = MV(); }
+                w.ref_valid[i] = false;
+                if (!w.m[j].unspecified && w.m[j].type != 0 && w.observed_type(i) != w.m[j].type && w.m[i].type != 0) e.add("type", "an any constructed from a const rvalue any does not hold the source's type");
+                return true; });
+            hx.add_op("copy-assign(const&&)", "a" + I + "=move(const a" + J + ")", [i, j](World& w, Errs&) {
+                MV before = w.m[i];
+                const xtl::any& src = w.a(j);
+                try { pl::Arm arm; w.a(i) = std::move(src); w.m[i] = w.m[j]; w.ref_valid[i] = false; }
+                catch (const pl::Injected&) { w.m[i] = before; }
+                return true; });
             hx.add_op("move-construct", "a" + I + ":=any(move(a" + J + "))", [i, j](World& w, Errs&) {
                 w.a(i).~any();
                 { pl::Arm arm; new (w.raw[i]) xtl::any(std::move(w.a(j))); }
